@@ -86,8 +86,13 @@ class ParallelMap:
             except Exception as e:
                 # Send the exception back to the caller, which re-raises it. Otherwise
                 # this worker would die and the caller would wait forever for a result.
+                # Some exceptions can be pickled but not un-pickled again (e.g. classes
+                # whose __init__ has required arguments that are not passed on to
+                # Exception.__init__): check the round trip here, because a failure
+                # while the caller reads the result queue would leave the other
+                # results of this call behind in the queue.
                 try:
-                    pickle.dumps(e)
+                    pickle.loads(pickle.dumps(e))
                 except Exception:
                     e = RuntimeError(f"{type(e).__name__}: {e}")
                 result = _TaskFailure(e)
